@@ -12,7 +12,7 @@ from . import _text
 
 ID = 'C02'
 LEVEL = 'exploration'
-RULE = ('cases = hostile mix + whole files + a nesting ladder (13 nesting constructs x depths up to 100) on cycled '
+RULE = ('cases = hostile mix (12% preceded by an abandoned strict parse / unexhausted tokenizer / error listing of the previous text) + whole files + a nesting ladder (13 nesting constructs x depths up to 100) on cycled '
         'versions; judged by an exception observer and a shape contract on Grammar.parse (parentless file_input, last '
         'child the only end marker, no empty interior node, str value/prefix) and a logical step budget on '
         'sys.monitoring LINE events in parso.python.tokenize / parso.parser / parso.python.parser '
@@ -135,12 +135,32 @@ def run_shard(spec, ctx):
         it = _text.whole_files(spec, ctx)
     else:
         it = _text.cases(spec, ctx)
+    hrng = random.Random(spec.get('seed', 0) + 99)
+    prev = 'if x:\n    y = )\n'
     for v, code, origin in it:
         _state['version'] = v
         if origin == 'ladder':
             ctx.count('ladder_cases')
         g = parso.load_grammar(version=v)
         _state['events'] = 0
+        if origin == 'hostile' and hrng.random() < .12:
+            # what was done before must not matter: an abandoned strict parse (raises mid-file), a tokenizer
+            # generator that is never exhausted, an error listing
+            ctx.count('prior_abandoned_calls')
+            try:
+                k = hrng.random()
+                if k < .5:
+                    g.parse(prev, error_recovery=False)
+                elif k < .8:
+                    it2 = g._tokenize(prev)
+                    for _ in range(hrng.randint(0, 6)):
+                        next(it2)
+                    del it2
+                else:
+                    list(g.iter_errors(g.parse(prev)))
+            except Exception:
+                pass
+        prev = code
         try:
             g.parse(code)
         except BaseException as e:
